@@ -347,7 +347,14 @@ def run(ctx):
         ok = rn.store_ok()
         if ok is not True:
             res.violations.append({"kind": "the block store is impaired after malformed traffic", "error": ok})
-        # the event loop's managers still run
+        # the event loop's managers still run — also when the peer book holds addresses that have been answering with garbage for
+        # weeks (failure counts in the thousands, below the configured limit)
+        from skepticoin.networking.remote_peer import DisconnectedRemotePeer as _DRP, OUTGOING as _OUT
+        from skepticoin.networking.params import MAX_CONNECTION_ATTEMPTS as _MAXA
+        for n_, score in enumerate([1023, 1024, 1500, _MAXA - 1, _MAXA, _MAXA + 1]):
+            rn.lp.network_manager.disconnected_peers[("10.77.0.%d" % (n_ + 1), 2412, _OUT)] = _DRP(
+                "10.77.0.%d" % (n_ + 1), 2412, _OUT, node.CLOCK[0], score)
+        res.count("peer_book_entries_with_failure_counts_in_the_thousands", 6)
         try:
             rn.lp.network_manager.step(node.CLOCK[0])
         except Exception as e:
